@@ -126,11 +126,12 @@ pub fn judge(tree: &SyntaxTree, ix: &TreeIndex, s: &Sentence, kw: &HashSet<&'sta
         b.map(|b| (b, e))
     };
     let spans: Vec<Option<(usize, usize)>> = (0..ix.nodes.len()).map(span_of).collect();
-    let implicit_decl_at = |start: usize| -> bool {
-        // a DataDeclarationVariable starting here whose DataTypeOrImplicit is empty and that has no `var`
+    let implicit_decl_at = |start: usize, end: usize| -> bool {
+        // a DataDeclarationVariable inside the fact's span (attributes may precede it) whose
+        // DataTypeOrImplicit is empty and that has no `var`
         ix.nodes.iter().enumerate().any(|(i, n)| {
             n.kind == "DataDeclarationVariable"
-                && spans[i].map(|s| s.0) == Some(start)
+                && spans[i].map(|s| s.0 >= start && s.0 < end).unwrap_or(false)
                 && (n.pre + 1..n.end).any(|j| ix.nodes[j].kind == "DataTypeOrImplicit" && ix.nodes[j].parent == Some(i) && ix.nodes[j].first_leaf == ix.nodes[j].leaf_end)
                 && !(n.pre + 1..n.end).any(|j| ix.nodes[j].kind == "Var" && ix.nodes[j].parent == Some(i))
         })
@@ -149,7 +150,7 @@ pub fn judge(tree: &SyntaxTree, ix: &TreeIndex, s: &Sentence, kw: &HashSet<&'sta
             let txt = &s.text[f.start..f.end];
             let triple_and = f.kinds.iter().any(|k| k == "ConditionalExpression")
                 && txt.find("&&&").map(|p| ix.nodes.iter().enumerate().any(|(i, n)| n.kind == "ConditionalExpression" && spans[i].map(|x| x.0) == Some(f.start + p + 2))).unwrap_or(false);
-            let sig = if stmt_like && implicit_decl_at(f.start) {
+            let sig = if stmt_like && implicit_decl_at(f.start, f.end) {
                 Some(SIG_IMPLICIT_DECL)
             } else if triple_and {
                 Some(SIG_TRIPLE_AND)
